@@ -122,19 +122,21 @@ def run(ctx):
         # cubic spline rule against scipy's antiderivative, linearity
         rng = np.random.RandomState(ctx.seed)
         for nk in (4, 5, 8, 13) + ((30,) if thorough else ()):
-            for bc in ("natural", "not-a-knot", "clamped"):
+            for bc, how in [(b_, h_) for b_ in ("natural", "not-a-knot", "clamped") for h_ in ("named", "default", "mixed-case")]:
+                # the method named, left at its documented default (cspline), or named in another case
                 n += 1
-                ctx.case(key=("cspline", nk, bc))
+                ctx.case(key=("cspline", nk, bc, how))
                 xk = np.sort(np.concatenate([[0.0, 1.0], rng.rand(nk - 2)]))
                 yk = np.cos(3 * xk) + xk
                 try:
-                    sq = xitorch.integrate.SQuad(torch.tensor(xk, dtype=DT), method="cspline", bc_type=bc)
+                    mkw = {"named": {"method": "cspline"}, "default": {}, "mixed-case": {"method": "CSpline"}}[how]
+                    sq = xitorch.integrate.SQuad(torch.tensor(xk, dtype=DT), bc_type=bc, **mkw)
                     cs = sq.cumsum(torch.tensor(yk, dtype=DT))
                     ref = CubicSpline(xk, yk, bc_type=bc).antiderivative()
                     refv = ref(xk) - ref(xk[0])
                     if not np.allclose(cs.numpy(), refv, atol=1e-10):
-                        ctx.violation("squad/cspline/%s" % bc, "SQuad cspline(%s) on %d knots differs from scipy's spline antiderivative by %.2e" % (bc, nk, float(np.abs(cs.numpy() - refv).max())),
-                                      {"bc": bc, "nk": nk})
+                        ctx.violation("squad/cspline/%s" % bc, "SQuad cspline(%s, method %s) on %d knots differs from scipy's spline antiderivative by %.2e" % (bc, how, nk, float(np.abs(cs.numpy() - refv).max())),
+                                      {"bc": bc, "nk": nk, "how": how})
                     y2 = torch.tensor(np.sin(xk), dtype=DT)
                     lin = sq.cumsum(2.0 * torch.tensor(yk, dtype=DT) - 0.5 * y2)
                     if not torch.allclose(lin, 2.0 * cs - 0.5 * sq.cumsum(y2), atol=1e-11):
@@ -149,7 +151,9 @@ def run(ctx):
                 out = xitorch.integrate.SQuad(xs32, method=method).cumsum(torch.tensor([1.0, 2.0, 0.0, 1.0], dtype=dtype))
                 if out.dtype != dtype:
                     ctx.violation("squad/dtype", "SQuad(%s) returns %s for %s input" % (method, out.dtype, dtype), {"method": method})
-    ctx.replayed = len(nodes) + len(snodes)
+    from vlib import layoutinv
+    nlay = layoutinv.replay(ctx, ["squad:simpson", "squad:cspline"], "squad")
+    ctx.replayed = len(nodes) + len(snodes) + nlay
     ctx.notes.update(cases=n, weight_rows=len(nodes), shape_rows=len(snodes))
     ctx.exhaustive = True
     ctx.assumptions += [
